@@ -822,3 +822,145 @@ Proof.
     split. { apply Qabs_lt; lra. } split. { apply Qabs_lt; lra. }
     exists na. split; [exact Ha|]. rewrite Es. split; assumption.
 Qed.
+
+(** * Every new grid is translation * scale in the requested CRS (no hypotheses) *)
+Lemma from_bbox_form B crs tight shape r anc tol g :
+  from_bbox B crs tight shape r anc tol = Ok g ->
+  exists offx offy rx ry ny nx,
+    g = mkG ny nx (aff_mul (aff_translation offx offy) (aff_scale rx ry)) crs /\
+    (shape = None -> exists x y, r = Some (x, y) /\ rx = x /\ ry = y).
+Proof.
+  intros H. destruct shape as [[n|ny nx]|].
+  - rewrite from_bbox_shapeN in H.
+    apply bind_ok in H. destruct H as (na & _ & H).
+    apply bind_ok in H. destruct H as (u1 & _ & H).
+    apply bind_ok in H. destruct H as (u2 & _ & H).
+    apply build_inv in H. destruct H as (offx & nx & offy & ny & _ & _ & ->).
+    exists offx, offy, (longest_res B n), (- longest_res B n), ny, nx. split; [reflexivity|discriminate].
+  - destruct r as [[x y]|].
+    + unfold from_bbox in H. apply bind_ok in H. destruct H as (na & _ & H). cbn [bind] in H.
+      apply build_inv in H. destruct H as (offx & nx' & offy & ny' & _ & _ & ->).
+      exists offx, offy, x, y, ny', nx'. split; [reflexivity|discriminate].
+    + destruct (from_bbox_shapeYX_inv _ _ _ _ _ _ _ _ _ H eq_refl) as (na & offx & offy & _ & _ & _ & -> & _).
+      exists offx, offy, (yx_rx B nx), (yx_ry B ny), ny, nx. split; [reflexivity|discriminate].
+  - destruct r as [[x y]|].
+    + rewrite from_bbox_resolution in H. apply bind_ok in H. destruct H as (na & _ & H).
+      apply build_inv in H. destruct H as (offx & nx & offy & ny & _ & _ & ->).
+      exists offx, offy, x, y, ny, nx. split; [reflexivity|]. intros _. exists x, y. auto.
+    + unfold from_bbox in H. destruct (norm_anchor anc); discriminate.
+Qed.
+
+Lemma cog_axis_aligned s dst du B fit rq shape tight anc tol rr g :
+  compute_output_geobox s dst du B fit rq shape tight anc tol rr = Ok (ONew g) ->
+  axis_aligned g /\ g_crs g = dst.
+Proof.
+  intros H. apply cog_new_inv in H. destruct H as (r & _ & H).
+  apply from_bbox_form in H. destruct H as (offx & offy & rx & ry & ny & nx & -> & _).
+  destruct (aff_mul_ts offx offy rx ry) as (A1 & A2 & A3 & A4 & A5 & A6).
+  split; [split; assumption|reflexivity].
+Qed.
+
+(** pixel size of a resolution-driven result = the decision table's value (no hypotheses) *)
+Lemma cog_resolution s dst du B fit rq tight anc tol rr g :
+  compute_output_geobox s dst du B fit rq None tight anc tol rr = Ok (ONew g) ->
+  exists rx ry, chosen s du fit rq rr = Ok (rx, ry) /\ aa (g_aff g) == rx /\ ae (g_aff g) == ry.
+Proof.
+  intros H. apply cog_new_inv in H. destruct H as (r & H1 & H).
+  apply from_bbox_form in H. destruct H as (offx & offy & rx & ry & ny & nx & -> & Hr).
+  destruct (Hr eq_refl) as (x & y & -> & -> & ->).
+  rewrite choose_resolution_none in H1.
+  destruct (chosen s du fit rq rr) as [[cx cy]|]; [|discriminate]. injection H1 as -> ->.
+  destruct (aff_mul_ts offx offy x y) as (A1 & A2 & A3 & A4 & A5 & A6).
+  exists x, y. split; [reflexivity|]. split; assumption.
+Qed.
+
+(** * Resolution-driven result: covering, snugness, alignment; enclosure from the footprint contract *)
+Lemma cog_covers s dst du B fit rq shape tight anc tol rr g :
+  compute_output_geobox s dst du B fit rq shape tight anc tol rr = Ok (ONew g) ->
+  not_yx shape -> valid_box B -> 0 <= tol ->
+  (1 <= g_nx g)%Z /\ (1 <= g_ny g)%Z /\ 0 < px g /\ 0 < py g /\ covers B tol g /\ snug B g.
+Proof.
+  intros H NY V Ht.
+  destruct (cog_grid _ _ _ _ _ _ _ _ _ _ _ _ H NY V Ht) as (na & rx & ry & Ha & C & P & _).
+  destruct (grid_props_facts _ _ _ _ _ _ P) as (_ & _ & _ & F1 & F2 & F3 & F4 & F5 & F6 & _).
+  split; [exact F1|]. split; [exact F2|]. split; [exact F3|]. split; [exact F4|]. split; assumption.
+Qed.
+
+Lemma cog_alignment s dst du B fit rq shape tight anc tol rr g :
+  compute_output_geobox s dst du B fit rq shape tight anc tol rr = Ok (ONew g) ->
+  not_yx shape -> valid_box B -> 0 <= tol ->
+  exists na, norm_anchor anc = Ok na /\ alignment_as_requested B (snap_of tight na) g.
+Proof.
+  intros H NY V Ht.
+  destruct (cog_grid _ _ _ _ _ _ _ _ _ _ _ _ H NY V Ht) as (na & rx & ry & Ha & C & P & _).
+  destruct (grid_props_facts _ _ _ _ _ _ P) as (_ & _ & _ & _ & _ & _ & _ & _ & _ & F).
+  exists na. split; assumption.
+Qed.
+
+(** the effective snap offsets for each way of writing the anchor *)
+Lemma snap_table :
+  (forall na, snap_of true na = None) /\
+  snap_of false NEdge = Some (0, 0) /\ snap_of false NCenter = Some (1 # 2, 1 # 2) /\
+  snap_of false NFloating = None /\ (forall x y, snap_of false (NXY x y) = Some (x, y)) /\
+  norm_anchor (AStr SDefault) = Ok NEdge /\ norm_anchor (AStr SEdge) = Ok NEdge /\
+  norm_anchor AEnumEdge = Ok NEdge /\ norm_anchor (AStr SCenter) = Ok NCenter /\
+  norm_anchor (AStr SCentre) = Ok NCenter /\ norm_anchor AEnumCenter = Ok NCenter /\
+  norm_anchor (AStr SFloating) = Ok NFloating /\ norm_anchor AEnumFloating = Ok NFloating /\
+  (forall x y, norm_anchor (AXY x y) = Ok (NXY x y)) /\
+  (forall q, q == 0 -> norm_anchor (ANum q) = Ok NEdge) /\
+  (forall q, q == 1 # 2 -> norm_anchor (ANum q) = Ok NCenter) /\
+  (forall q, ~ q == 0 -> ~ q == 1 # 2 -> norm_anchor (ANum q) = Ok (NXY q q)).
+Proof.
+  repeat split; try reflexivity.
+  - intros q E. unfold norm_anchor. apply Qeq_bool_iff in E. rewrite E. reflexivity.
+  - intros q E. unfold norm_anchor.
+    assert (F : Qeq_bool q 0 = false) by (apply Qeq_bool_false; intros C; rewrite C in E; discriminate).
+    apply Qeq_bool_iff in E. rewrite F, E. reflexivity.
+  - intros q E F. unfold norm_anchor. apply Qeq_bool_false in E. apply Qeq_bool_false in F.
+    rewrite E, F. reflexivity.
+Qed.
+
+(** default anchor, not tight: every pixel edge is an integer multiple of the pixel size *)
+Lemma cog_default_anchor_multiples s dst du B fit rq shape tol rr g :
+  compute_output_geobox s dst du B fit rq shape false (AStr SDefault) tol rr = Ok (ONew g) ->
+  not_yx shape -> valid_box B -> 0 <= tol ->
+  forall i : Z,
+    (exists k : Z, g_x0 g + inject_Z i * aa (g_aff g) == inject_Z k * px g) /\
+    (exists k : Z, g_y0 g + inject_Z i * ae (g_aff g) == inject_Z k * py g).
+Proof.
+  intros H NY V Ht i.
+  destruct (cog_alignment _ _ _ _ _ _ _ _ _ _ _ _ H NY V Ht) as (na & Ha & A).
+  simpl in Ha. injection Ha as <-. simpl in A. destruct (A i) as [(k1 & K1) (k2 & K2)].
+  split; [exists k1|exists k2]; lra.
+Qed.
+
+(** tight: the grid starts exactly at the footprint box, whatever the anchor *)
+Lemma cog_tight s dst du B fit rq shape anc tol rr g :
+  compute_output_geobox s dst du B fit rq shape true anc tol rr = Ok (ONew g) ->
+  not_yx shape -> valid_box B -> 0 <= tol -> starts_at_box B g.
+Proof.
+  intros H NY V Ht.
+  destruct (cog_alignment _ _ _ _ _ _ _ _ _ _ _ _ H NY V Ht) as (na & Ha & A). exact A.
+Qed.
+
+Section Enclosure.
+  (** [P x y]: (x, y) is the projection into the target CRS of a point of a
+      source pixel (centre, corner, edge point).  Contract on the footprint
+      oracle: the box B handed to from_bbox contains all of them. *)
+  Variable P : Q -> Q -> Prop.
+  Variable B : bbox.
+  Hypothesis footprint_contract : forall x y, P x y -> bl B <= x /\ x <= br B /\ bb B <= y /\ y <= bt B.
+
+  Lemma cog_encloses s dst du fit rq shape tight anc tol rr g :
+    compute_output_geobox s dst du B fit rq shape tight anc tol rr = Ok (ONew g) ->
+    not_yx shape -> valid_box B -> 0 <= tol ->
+    forall x y, P x y ->
+      g_left g - tol * px g <= x /\ x <= g_right g + tol * px g /\
+      g_bottom g - tol * py g <= y /\ y <= g_top g + tol * py g.
+  Proof.
+    intros H NY V Ht x y Hp.
+    destruct (cog_covers _ _ _ _ _ _ _ _ _ _ _ _ H NY V Ht) as (_ & _ & _ & _ & (C1 & C2 & C3 & C4) & _).
+    destruct (footprint_contract x y Hp) as (F1 & F2 & F3 & F4).
+    repeat split; lra.
+  Qed.
+End Enclosure.
